@@ -3,8 +3,9 @@
 (* C14: rotation of restart dumps (RestartManager::get_restart_writer and  *)
 (* the dump that follows), with a crash possible between any two file      *)
 (* system operations and, optionally, clean process restarts (a restarted  *)
-(* run constructs a fresh RestartManager: its counters start from zero     *)
-(* while the files of the previous process are still in the directory).    *)
+(* run constructs a fresh RestartManager while the files of the previous   *)
+(* process are still in the directory; InitRule says whether the           *)
+(* constructor looks at them).                                             *)
 (*                                                                         *)
 (* Layer A = the operators AfterDumpOK / CrashSafeOK / NoStrayOK over a    *)
 (* directory content; they are used as invariants of the Layer-B actions   *)
@@ -20,7 +21,9 @@ CONSTANTS MaxBackups,    \* configured maximum number of backups (0 upward)
           NParts,        \* number of separate writes of one dump
           StartRule,     \* "fixed": shift loop starts at min(max-1, nb)
                          \* "orig" : min(max-1, nb-1) in unsigned arithmetic
-          ProcRestarts   \* number of clean process restarts explored
+          ProcRestarts,  \* number of clean process restarts explored
+          InitRule       \* "probe": a new RestartManager counts the restart files already in the folder
+                         \* "fresh": its counters start from zero (the code before fix 3c; violates CrashSafe)
 
 VARIABLES fs,        \* directory: name -> [ver, complete] (ver = 0: absent)
           nb, nr,    \* _number_of_backups, _number_of_restarts
@@ -107,7 +110,11 @@ Crash ==
 \* clean stop and restart of the run: fresh counters, same directory
 ProcRestart ==
     /\ pc = "idle" /\ nproc < ProcRestarts /\ ndone > 0
-    /\ nb' = 0 /\ nr' = 0 /\ nproc' = nproc + 1
+    /\ IF InitRule = "probe" /\ MaxBackups > 0
+       THEN /\ nr' = IF fs[-1] # Absent THEN 1 ELSE 0
+            /\ nb' = Cardinality({k \in 0 .. MaxBackups - 1 : \A j \in 0 .. k : fs[j] # Absent})
+       ELSE nb' = 0 /\ nr' = 0
+    /\ nproc' = nproc + 1
     /\ UNCHANGED <<fs, pc, i, ver, ndone, prevGood>>
 
 Next == Begin \/ ShiftOne \/ ShiftDone \/ MoveCurrent \/ OpenTrunc \/ WritePart
@@ -123,5 +130,8 @@ AfterDump == (pc = "idle" /\ ndone > 0) => AfterDumpOK(fs, ver, ndone)
 CrashSafe == (pc = "crashed") => CrashSafeOK(fs, prevGood)
 \* a little more than the property asks for: backups are never incomplete
 BackupsComplete == \A j \in 0 .. MaxBackups : fs[j] # Absent => fs[j].complete
-CountersOK == nb <= MaxBackups /\ (pc = "idle" => nb = Min(MaxBackups, IF nr = 0 THEN 0 ELSE nr - 1))
+CountersOK == /\ nb <= MaxBackups
+              /\ (pc = "idle" /\ nproc = 0) => nb = Min(MaxBackups, IF nr = 0 THEN 0 ELSE nr - 1)
+              \* the counter never claims a backup that is not there
+              /\ pc = "idle" => \A j \in 0 .. nb - 1 : fs[j] # Absent
 =============================================================================
